@@ -62,7 +62,7 @@ func validHeader(b byte) bool {
 func TestCheck(t *testing.T) {
 	mc.Main(t, "C09", func(r *mc.Run) {
 		if !r.Replaying() {
-			for _, v6 := range []bool{false, true} {
+			for _, v6 := range []string{"false", "true", "client-only", "server-only"} {
 				for _, ps := range []kit.PathSpec{{Kind: "empty"}, {Kind: "scion", Segs: []int{2, 2}}, {Kind: "onehop"}} {
 					if r.Mine() {
 						runSCION(r, v6, ps)
@@ -91,7 +91,7 @@ func TestCheck(t *testing.T) {
 			}
 			runIP(r, nsock, nil)
 		}
-		r.Extra["rule"] = "SCION listener (IPv4/IPv6 hosts x empty / two-segment SCION / one-hop path): the same payload space inside valid SCION/UDP packets, replies parsed with the SCION library (last hop, reversed path, swapped addresses and ports); IP listener (1 and 2 SO_REUSEPORT sockets): all 256 first bytes x 4 header fills x 10 datagram lengths (0..2048) x trailers {zeros, 0xff, constant}; valid NTS requests (pool levels 8 and 5) around every first byte, and with single flipped bytes; every reply is fed back into the listener. Distinct = distinct datagrams; non-trivial = length >= 48 (reaches validation)"
+		r.Extra["rule"] = "SCION listener (IPv4/IPv4, IPv6/IPv6, IPv4/IPv6 and IPv6/IPv4 client/server hosts x empty / two-segment SCION / one-hop path): the same payload space inside valid SCION/UDP packets, replies parsed with the SCION library (last hop, reversed path, swapped addresses and ports); IP listener (1 and 2 SO_REUSEPORT sockets): all 256 first bytes x 4 header fills x 10 datagram lengths (0..2048) x trailers {zeros, 0xff, constant}; valid NTS requests (pool levels 8 and 5) around every first byte, and with single flipped bytes; every reply is fed back into the listener. Distinct = distinct datagrams; non-trivial = length >= 48 (reaches validation)"
 	})
 }
 
@@ -273,15 +273,22 @@ func runIP(r *mc.Run, nsock int, only *dgram) {
 }
 
 // runSCION: the same payload space through the SCION listener.
-func runSCION(r *mc.Run, v6 bool, ps kit.PathSpec) {
+func runSCION(r *mc.Run, v6 string, ps kit.PathSpec) {
 	scen := fmt.Sprintf("scion/v6=%v/%s", v6, ps.Kind)
 	x := &mc.X{}
 	world.Run(r.T, x, func(w *world.World) {
 		server.VerifResetTSS()
 		sess := kit.NewSession(7)
 		sh, ch := kit.SrvHost, kit.CliHost
-		if v6 {
+		// both hosts IPv4, both IPv6, or one of each (the address types in the reply
+		// header must be exchanged along with the addresses)
+		switch v6 {
+		case "true":
 			sh, ch = netip.MustParseAddr("fd00::1"), netip.MustParseAddr("fd00::2")
+		case "client-only":
+			ch = netip.MustParseAddr("fd00::2")
+		case "server-only":
+			sh = netip.MustParseAddr("fd00::1")
 		}
 		sw := kit.NewSCIONWorld(w, sh, false, sess.Provider)
 		rev, rtype, _ := ps.Reversed()
